@@ -24,6 +24,7 @@ type tree struct {
 	types    map[ast.Node]*tsnap
 	dcTypes  map[ast.Node]bool
 	unkDirOf map[ast.Node]bool
+	noRoot   map[ast.Node]bool
 }
 
 func newTree(text, source string, root ast.Node) *tree {
